@@ -17,7 +17,7 @@ From HS Require Import Base.Prelude Rules.RulesModel.
 Open Scope N_scope.
 
 Section Spec.
-Variable f : store.   (* the blocks the replica knows *)
+Variable f : store.   (* the blocks available to the replica: stored, or obtainable from a peer *)
 
 (* [b] is known and is the block certified by the certificate carried in [c]
    (c.justify.node = b).  The placeholder certificate of the genesis block (all-zero hash)
@@ -63,11 +63,20 @@ Definition chained_lock_spec (lock bstar lock' : block) : Prop :=
 Definition chained_commit_spec (bstar b : block) : Prop :=
   exists b'', certified_by bstar b'' /\ dc_chain 2 b'' b.
 
+(* Missing blocks.  The published rules are stated for replicas that have the blocks they
+   refer to.  Processing a block that certifies [qb] moves the lock to the block certified by
+   [qb]'s own certificate; when that block is not available the lock cannot be moved, and the
+   stated behaviour is "no vote" (a vote without the lock update is what the rules forbid).
+   [qb] carrying the placeholder certificate (zero hash: genesis) has no lock target. *)
+Definition lock_target_available (qb : block) : Prop :=
+  qc_hash (b_qc qb) <> zero_hash -> exists t, get f (qc_hash (b_qc qb)) = Some t.
+
 (* safeNode: liveness rule (the certified block is higher than the lock) or safety rule
    (the proposal extends the lock) *)
 Definition chained_vote_spec (lock : block) (p : proposal) : Prop :=
-  (exists qb, get f (qc_hash (b_qc (p_block p))) = Some qb /\ b_view lock < b_view qb)
-  \/ extends_spec (p_block p) (b_hash lock).
+  (forall qb, get f (qc_hash (b_qc (p_block p))) = Some qb -> lock_target_available qb) /\
+  ((exists qb, get f (qc_hash (b_qc (p_block p))) = Some qb /\ b_view lock < b_view qb)
+   \/ extends_spec (p_block p) (b_hash lock)).
 
 (* ------------------------------------------------------------------ Fast-HotStuff *)
 (* SafeProposal: with a plain QC, B.view >= curView and B.view = qc.view + 1; with an AggQC,
@@ -90,7 +99,8 @@ Definition fast_commit_spec (bstar b : block) : Prop := dc_chain 2 bstar b.
 (* rule 1: increasing rounds; rule 2: the (certified) parent is not older than the lock *)
 Definition simple_vote_spec (lock : block) (cur : view) (p : proposal) : Prop :=
   cur <= b_view (p_block p) /\
-  exists par, get f (qc_hash (b_qc (p_block p))) = Some par /\ b_view lock <= b_view par.
+  exists par, get f (qc_hash (b_qc (p_block p))) = Some par /\
+              lock_target_available par /\ b_view lock <= b_view par.
 
 (* the lock is the grandparent of the new block, if higher *)
 Definition simple_lock_candidate (bnew gp : block) : Prop :=
